@@ -75,7 +75,7 @@ SHAPES = {
     'expr': Raw('!expr $.input.x'), 'badexpr': Raw('!expr "$.("'), 'exprmap': Raw('!expr {a: 1}'), 'oneofscalar': Raw('!oneof x'),
     'oneofmap': Raw('!oneof {discriminator: d, one_of: {a: !expr $.input}}'), 'oneofempty': Raw('!oneof {discriminator: d, one_of: {}}'),
     'waitopt': Raw('!wait-optional $.input.x'), 'softoptmap': Raw('!soft-optional {a: 1}'), 'ordisabledbad': Raw('!ordisabled $.input.x'),
-    'alias': Raw('*anch'), 'nonscalarkey': Raw('{? [x, y] : 1}'), 'unknowntag': Raw('!bogus x'), 'binarytag': Raw('!!binary aGVsbG8='),
+    'alias': Raw('*anch'), 'selfseq': Raw('&selfa [*selfa]'), 'selfmap': Raw('&selfm {k: *selfm}'), 'selfnested': Raw('&selfn {a: {b: [1, *selfn]}}'), 'nonscalarkey': Raw('{? [x, y] : 1}'), 'unknowntag': Raw('!bogus x'), 'binarytag': Raw('!!binary aGVsbG8='),
     # malformed expression texts (the expression parser is part of what a workflow file reaches)
     'danglingop': Raw('!expr $.input.x =='), 'unbalanced': Raw('!expr ($.input.x'), 'emptyexpr': Raw('!expr ""'), 'opsonly': Raw('!expr "+"'),
     'openfunc': Raw('!expr foo('), 'trailingdot': Raw('!expr $.input.'), 'openbracket': Raw('!expr "$.input.x["'), 'openstring': Raw("!expr '$.input.x == \"abc'"),
@@ -216,6 +216,8 @@ def run(ctx):
     whole = {'empty': b'', 'comment-only': b'# nothing\n', 'garbage': bytes(rng.randrange(256) for _ in range(300)), 'multi-doc': good + b'---\n' + good,
              'tab-indent': b'steps:\n\tx: 1\n', 'just-scalar': b'hello\n', 'just-seq': b'- a\n- b\n', 'nul-bytes': good[:40] + b'\x00\x00' + good[40:],
              'unterminated': b'steps: {a: [1, 2\n', 'bom': b'\xef\xbb\xbf' + good, 'huge-key': (b'k' * 70000) + b': 1\n',
+             'alias-cycle-input': b'version: v0.2.0\ninput: &in {root: RootObject, objects: {RootObject: {id: RootObject, properties: {}}}, again: *in}\nsteps: {}\noutputs: {success: {}}\n',
+             'alias-cycle-seq': b'&a [*a]\n', 'alias-chain': b'a: &x [1, 2]\nb: &y [*x, *x]\nc: [*y, *y]\n',
              'deep-map': b''.join(b'  ' * i + b'a:\n' for i in range(200)) + b'  ' * 200 + b'x\n', 'anchor-bomb': b'a: &a [x, x]\nb: &b [*a, *a]\nc: &c [*b, *b]\nd: [*c, *c]\n'}
     for k, b in whole.items():
         jobs.append(('whole-workflow=' + k, {'workflow.yaml': b, 'sub.yaml': doc(sub)}, b'x: x\n'))
